@@ -43,6 +43,19 @@ Theorem c11_str_step_chars : forall cap cs op,
   (text_of (fst (cspec_step cap cs op)), snd (cspec_step cap cs op)).
 Proof. exact sspec_step_chars. Qed.
 
+(* every finite history of push(char) / clear: the text-level history that c11_str_history_typed proves
+   of the library is the character-level history (a capacity-bounded String of chars) *)
+Theorem c11_str_history_chars : forall cap ops, Forall char_op ops -> forall cs,
+  sspec_run cap ops (text_of cs) =
+  (text_of (fst (cspec_run cap ops cs)), snd (cspec_run cap ops cs)).
+Proof. exact sspec_run_chars. Qed.
+
+(* ... and the reference decoder reads the characters of the history back from the final text *)
+Theorem c11_str_history_chars_decode : forall cap ops cs, Forall char_op ops ->
+  Forall (fun c => c < 1114112) (fst (cspec_run cap ops cs)) ->
+  utf8_dec (fst (sspec_run cap ops (text_of cs))) = Some (fst (cspec_run cap ops cs)).
+Proof. exact sspec_run_chars_decode. Qed.
+
 (* what the library's validator accepts: the text of any sequence of scalar values *)
 Theorem c11_chars_text_valid : forall cs, Forall scalar cs -> utf8_err (text_of cs) = None.
 Proof. exact text_of_valid. Qed.
@@ -58,6 +71,8 @@ Example c11_chars_examples :
   cspec_step 6 [104; 233] (SPushChar 8364) = ([104; 233; 8364], ODone) /\
   cspec_step 6 [104; 233] (SPushChar 128512) = ([104; 233], ORefused) /\
   sspec_step 6 (text_of [104; 233]) (SPushChar 128512) = (text_of [104; 233], ORefused) /\
+  cspec_run 6 [SPushChar 8364; SPushChar 128512; VClear; SPushChar 65] [104; 233] =
+    ([65], [ODone; ORefused; ODone; ODone]) /\
   utf8_dec [226; 130] = None /\
   utf8_err (text_of [55295; 57344]) = None.
 Proof. vm_compute. repeat split; reflexivity. Qed.
@@ -68,3 +83,5 @@ Print Assumptions c11_char_injective.
 Print Assumptions c11_char_len.
 Print Assumptions c11_str_step_chars.
 Print Assumptions c11_chars_text_valid.
+Print Assumptions c11_str_history_chars.
+Print Assumptions c11_str_history_chars_decode.
